@@ -298,3 +298,104 @@ def _alloc_stmt(P, tok):
     except Exception:
         return None
     return None
+
+
+_SNAP = {}
+
+
+def snapshot_attrs(chk):
+    """Attributes of the signal classes that hold a *record-derived* value written by some method other than the constructor
+    and that the cache protocol (C04's model: flags, guarded storage, memo dicts) does not manage -- snapshots such as the
+    deprecated statistics.  Nothing invalidates them, so a function that reads one is computing from a possibly older
+    record.  Returns {attr: sorted writer method names}."""
+    P = chk.P
+    if id(P) in _SNAP:
+        return _SNAP[id(P)]
+    from .props.c04 import extract_model
+    from .autoargs import auto_args
+    out = {}
+    for cn in ("eqsig.single.Signal", "eqsig.single.AccSignal"):
+        ci = P.cls(cn)
+        m = extract_model(P, ci, chk)
+        managed = set(m.flags) | set(m.memo) | {"_values", "_npts", "_dt"}
+        for info in m.flags.values():
+            managed |= info["storage"]
+        seen = set()
+        for c in ci.mro():
+            for meth in c.methods.values():
+                if meth.name in seen or meth.name.startswith("__") or meth.is_property:
+                    continue
+                seen.add(meth.name)
+                # only methods that store an unmanaged attribute at all (syntactic pre-filter)
+                stores = {n.attr for n in ast.walk(meth.node) if isinstance(n, ast.Attribute) and isinstance(n.ctx, ast.Store)
+                          and isinstance(n.value, ast.Name) and n.value.id == meth.params[0]} - managed
+                if not stores:
+                    continue
+                I = Interp(P)
+                I.atoms = {R, DT}
+                st = State()
+                o, oav = make_signal(I, st, ci, name="self", flags="unknown", is_param=False)
+                try:
+                    bound = I.bind(meth, [oav], auto_args(I, st, meth, P, flags="unknown"), None, None)
+                    if meth.kwarg:
+                        bound[meth.kwarg] = AV(kind=K_DICT, dvals={}, dmust=frozenset(), dmay=None)
+                    I.run(meth, bound, st, self_obj=o)
+                except AnalysisError:
+                    continue
+                for e in I.events:
+                    if e.kind == "attr-write" and e.obj == o.id and e.attr in stores and e.value is not None:
+                        tg = e.value.tags
+                        if "attr:_values" in tg or any(t.startswith("stored:") for t in tg) or "p:values" in tg:
+                            out.setdefault(e.attr, set()).add(meth.name)
+    out = {k: sorted(v) for k, v in out.items()}
+    _SNAP[id(P)] = out
+    return out
+
+
+def only_managed_reads(chk, rule, run, construct):
+    """Every read of a signal object's state made while analysing `run` goes through a property, a constructor-set attribute or
+    managed cache storage: not through a snapshot attribute (see snapshot_attrs) nor an attribute the constructor never set."""
+    snap = snapshot_attrs(chk)
+    reads = [e for e in run.I.events if e.kind == "attr-read"]
+    bad = [e for e in reads if e.via == "missing" or (e.via == "plain" and e.attr in snap)]
+    names = sorted({e.attr for e in bad})
+    chk.ob(rule, construct + "{state read}", "the signal is read through its managed interface only (no attribute that only a statistics "
+           "method writes and no cache clears)", not bad,
+           derived=("reads %s (written by %s; nothing invalidates it)" % (names, sorted({w for a in names for w in snap.get(a, ["no constructor"])})))
+           if bad else "%d attribute reads, all managed" % len(reads),
+           loc=bad[0].loc if bad else run.fi.loc(), stmt=bad[0].stmt if bad else None,
+           detail="after the record is modified the result is still located on the old series" if bad else None)
+
+
+def no_int_arith(chk, rule, qual, build, construct, atoms=(R, DT), self_cls=None, what="an integer-typed input", within=None):
+    """Run an entry with integer-typed data (build must bind the data with dtype="int"): no difference, product or power of the
+    data may be formed in the integer dtype (fixed-width integers wrap around silently: unsigned on any decrease, signed on
+    large steps).  `within`: only sites in these functions (qualnames) count."""
+    P = chk.P
+    fi = P.fn(qual)
+    I = Interp(P)
+    I.atoms = set(atoms)
+    I.watch_int = True
+    st = State()
+    pos = []
+    self_obj = None
+    if self_cls is not None:
+        self_obj, oav = make_signal(I, st, P.cls(self_cls), name="self", flags="cold", is_param=False)
+        pos = [oav]
+    args = build(I, st, fi)
+    bound = I.bind(fi, pos, args, None, None)
+    I.run(fi, bound, st, self_obj=self_obj)
+    chk.absorb_interp(I)
+    ev = [e for e in I.events if e.kind == "int-arith" and (within is None or e.fn in within)]
+    seen = set()
+    for e in ev:
+        if e.stmt in seen:
+            continue
+        seen.add(e.stmt)
+        chk.ob(rule, "%s{%s}" % (construct, e.stmt), "for %s no difference/product of the data is formed in the integer dtype" % what, False,
+               derived="%s of integer-typed data at `%s`" % ({"Sub": "difference", "Mult": "product", "Pow": "power"}[e.op], e.stmt),
+               loc=e.loc, stmt=e.stmt, detail="fixed-width integers wrap around silently (uint on any decrease, int16/int32 on large steps)")
+    if not ev:
+        chk.ob(rule, construct, "for %s no difference/product of the data is formed in the integer dtype" % what, True,
+               derived="the data is promoted to float before any difference or product", nontrivial=True)
+    return I
